@@ -1,6 +1,7 @@
 #!/bin/bash
 # seeded_matrix.sh [ids...]  -- for each /verif/seeded/<id>/patch.diff: scratch worktree of /repo HEAD (outside /repo and /verif),
 # apply the change, run the quick check of its property against it (VERIF_BUILD=build-mut: no evidence is written), remove the worktree.
+# BASE=<commit> uses an older commit of /repo as the base (for changes that touch code a later fix: commit rewrote).
 # Prints one line per seeded change; a line with viol=0 means the check misses that change.
 cd /verif
 IDS="$@"; [ -z "$IDS" ] && IDS=$(ls seeded)
@@ -8,7 +9,7 @@ ROOT=/var/tmp/lmv-seed; mkdir -p $ROOT
 for id in $IDS; do
   p=$(python3 -c "import json;print(json.load(open('seeded/$id/meta.json'))['property'])")
   W=$ROOT/$id
-  git -C /repo worktree add -q --detach $W HEAD 2>/dev/null || { echo "$id: cannot create worktree"; continue; }
+  git -C /repo worktree add -q --detach $W ${BASE:-HEAD} 2>/dev/null || { echo "$id: cannot create worktree"; continue; }
   if git -C $W apply --3way /verif/seeded/$id/patch.diff >/dev/null 2>&1; then
     echo -n "$id: "; scripts/try_mutant.sh $W $p
   else
